@@ -52,6 +52,7 @@ func (c *ConfigReceiver) Derive(adjust curve.Scalar, newChainKey []byte) (*Confi
 		Setup:       c.Setup,
 		SecretShare: c.SecretShare.Curve().NewScalar().Set(c.SecretShare).Add(adjust),
 		Public:      c.Public.Add(adjustG),
+		ChainKey:    newChainKey,
 	}, nil
 }
 
@@ -159,10 +160,12 @@ func (c *ConfigSender) Derive(adjust curve.Scalar, newChainKey []byte) (*ConfigS
 
 	adjustG := adjust.ActOnBase()
 
+	// The secret key is the sum of the two shares: the adjustment is added on the Receiver's side only.
 	return &ConfigSender{
 		Setup:       c.Setup,
-		SecretShare: c.SecretShare.Curve().NewScalar().Set(c.SecretShare).Add(adjust),
+		SecretShare: c.SecretShare.Curve().NewScalar().Set(c.SecretShare),
 		Public:      c.Public.Add(adjustG),
+		ChainKey:    newChainKey,
 	}, nil
 }
 
